@@ -233,6 +233,24 @@ func execEv(in string) string {
 					return "err"
 				}
 				return "ok"
+			case "mut":
+				i, _ := strconv.Atoi(parts[1])
+				c := parseClaims(pool[i%len(pool)])
+				// overwrite the attached object in place when the types agree, else swap the exported field
+				switch dst := ev.Claims.(type) {
+				case *psatoken.P1Claims:
+					if src, ok := c.(*psatoken.P1Claims); ok {
+						*dst = *src
+						return "ok"
+					}
+				case *psatoken.P2Claims:
+					if src, ok := c.(*psatoken.P2Claims); ok {
+						*dst = *src
+						return "ok"
+					}
+				}
+				ev.Claims = c
+				return "ok"
 			case "sign", "vsign":
 				if ev.Claims == nil {
 					return "skip"
@@ -311,7 +329,9 @@ func genC19(tier string, seed uint64, emit func(string)) {
 		ops = append(ops, "set:"+strconv.Itoa(r.intn(2)))
 		nops := 1 + r.intn(30)
 		for j := 0; j < nops; j++ {
-			switch r.intn(10) {
+			switch r.intn(11) {
+			case 10:
+				ops = append(ops, "mut:"+strconv.Itoa(r.intn(3)))
 			case 0:
 				ops = append(ops, "set:"+strconv.Itoa(r.intn(3)))
 			case 1, 2:
